@@ -87,15 +87,17 @@ class IntroduceFactory:
                 self.project, source_code, resource=self.resource
             )
         lines = self.pymodule.lines
-        start = self._get_insertion_offset(class_scope, lines)
+        start = self._get_insertion_offset(class_scope, lines, global_)
         result = source_code[:start]
         result += self._get_factory_method(lines, class_scope, factory_name, global_)
         result += source_code[start:]
         changes.add_change(ChangeContents(self.resource, result))
 
-    def _get_insertion_offset(self, class_scope, lines):
+    def _get_insertion_offset(self, class_scope, lines, global_=False):
         start_line = class_scope.get_end()
-        if class_scope.get_scopes():
+        # a global factory goes after the whole class, also after class-level
+        # statements that follow the last method
+        if not global_ and class_scope.get_scopes():
             start_line = class_scope.get_scopes()[-1].get_end()
         start = lines.get_line_end(start_line) + 1
         return start
